@@ -36,6 +36,8 @@ PANICKY = {
 
 
 def run(facts, tr, rep):
+    _n_ops = check_no_panicking_time_arith(facts, tr, rep, "C14.NO-PANIC-ARITH", facts.crates["tower_resilience_retry"].bodies)
+    rep.note("panicking Instant/Duration operators examined in the crate: %d" % _n_ops)
     roots = []
     for c in facts.crates.values():
         for im in c.impls:
